@@ -8,11 +8,13 @@ import (
 
 	"verifharness/drv/c03"
 	"verifharness/drv/c20"
+	rxdrv "verifharness/drv/reactive"
 )
 
 var cmds = map[string]func([]string) error{
 	"c03": c03.Main,
 	"c20": c20.Main,
+	"reactive": rxdrv.Main,
 }
 
 func main() {
